@@ -282,7 +282,17 @@ def parse_mir(text):
                         l += " " + lines[i].strip()
                     stmts.append(l[:-1])
                 i += 1
-            funcs[name] = f
+            if name in funcs and funcs[name].params != f.params:
+                # several impls generated at one macro span (thiserror #[from]): keep all, keyed by first param type
+                ov = funcs.setdefault("#overloads", {})
+                first = funcs[name]
+                lst = ov.setdefault(name, [(first.params[0][1] if first.params else "", name)])
+                alt = name + "#" + (f.params[0][1] if f.params else str(len(lst)))
+                f.name = alt
+                funcs[alt] = f
+                lst.append((f.params[0][1] if f.params else "", alt))
+            else:
+                funcs[name] = f
         i += 1
     return funcs
 
@@ -409,6 +419,13 @@ def compile_rvalue(s):
             except MirError:
                 pass
         return ("use", compile_operand(s))
+    if s.endswith(")") and " as " in s and re.search(r" \((PointerCoercion|Transmute|PtrToPtr|IntToInt|Subtype|FnPtrToPtr)\b.*\)$", s):
+        m = re.match(r"(.*) as (.*) \((\w+)(\(.*\))?\)$", s)
+        if m:
+            try:
+                return ("cast", compile_operand(m.group(1)), m.group(2), m.group(3))
+            except MirError:
+                pass
     m = re.match(r"([A-Za-z]+)\((.*)\)$", s)
     if m:
         head = m.group(1)
